@@ -186,6 +186,202 @@ func okPara(n *html.Node, inPara bool) bool {
 	return byRuns(true)
 }
 
+// lostPara writes the text of a subtree that the property asks for and nothing
+// returns: walking as okPara walks (content model, not tabula), inside a
+// paragraph that has a block-level element child an element that is only a
+// wrapper (not skipped, not excluded, not a content element, not a div) loses
+// the text of its phrasing children; everything else loses nothing. excluded is
+// asked for the elements the walk enters, never for phrasing content.
+func lostPara(n *html.Node, inPara bool, excluded func(*html.Node) bool, b *strings.Builder) {
+	all := func(onlyLists bool) {
+		for c := n.FirstChild; c != nil; c = c.NextSibling {
+			if onlyLists && !(c.Type == html.ElementNode && (c.Data == "ul" || c.Data == "ol")) {
+				continue
+			}
+			lostPara(c, false, excluded, b)
+		}
+	}
+	byRuns := func(in bool) {
+		for c := n.FirstChild; c != nil; c = c.NextSibling {
+			if !phrasing(c) {
+				lostPara(c, in, excluded, b)
+			}
+		}
+	}
+	switch n.Type {
+	case html.TextNode:
+		return
+	case html.ElementNode:
+		if skipTags[n.Data] || excluded(n) {
+			return
+		}
+		switch n.Data {
+		case "p":
+			if hasBlockChild(n) {
+				byRuns(true)
+			}
+			return
+		case "div":
+			if !hasBlockChild(n) && !blankText(n) {
+				return
+			}
+			byRuns(inPara)
+			return
+		case "ul", "ol":
+			all(false)
+			return
+		case "li":
+			all(true)
+			return
+		case "h1", "h2", "h3", "h4", "h5", "h6", "table", "pre", "code", "blockquote", "br", "hr":
+			return
+		}
+	}
+	// a wrapper (or the document node)
+	if !inPara {
+		all(false)
+		return
+	}
+	for c := n.FirstChild; c != nil; c = c.NextSibling {
+		if phrasing(c) {
+			plainText(c, b)
+		} else {
+			lostPara(c, true, excluded, b)
+		}
+	}
+}
+
+// lostOp builds one c19.lost op: the text the real elements of mode m carry and
+// the lost text collected by lostPara with the reader's own exclusion decisions.
+func lostOp(c *hx.Ctx, data []byte, tree string, m int) (line, out, errText string) {
+	rd, err := htmldoc.OpenReader(bytes.NewReader(data))
+	if err != nil {
+		return "", "", ""
+	}
+	doc := rd.VerifRoot()
+	body := findBody(doc)
+	if body == nil {
+		body = doc
+	}
+	_, atoms := dumpEls(rd.VerifElements(htmldoc.NavigationExclusionMode(m)))
+	var sb, lb strings.Builder
+	for _, a := range atoms {
+		sb.WriteString(a.text)
+	}
+	lostPara(body, false, htmldoc.VerifExcluder(htmldoc.NavigationExclusionMode(m), doc), &lb)
+	lostText := squeezeRaw(lb.String())
+	nw := noWrappedPara(body)
+	switch {
+	case lostText == "" && nw:
+		c.Count("lost-nothing")
+	case lostText == "":
+		c.Count("lost-nothing-wrapper-blank-or-excluded")
+	default:
+		c.Count("lost-text")
+		if m >= 2 {
+			c.Count("lost-text-pattern-modes")
+		}
+	}
+	if nw && lostText != "" {
+		errText = "harness: noWrappedPara but lost text " + lostText
+	}
+	return fmt.Sprintf("c19.lost %d %s", m, tree),
+		fmt.Sprintf("R=%s L=%s sub=true len=true", hx.HexS(squeezeRaw(sb.String())), hx.HexS(lostText)), errText
+}
+
+// lostFamily: quirks-mode documents (no doctype) built around paragraphs that keep
+// tables inside them, with wrappers (span, a, font, b, label; section/form foster-
+// parented out of a table) around further tables, nested in one another, with and
+// without own text, with attributes from the exclusion vocabulary and beside it, and
+// with skipped elements; every document is read in the four modes and one odd mode.
+func lostFamily(c *hx.Ctx) {
+	r := hx.NewRng(c.Seed*2654435761 + 97)
+	n := c.N(60, 400)
+	wrappers := []string{"span", "a", "font", "b", "label", "span", "em"}
+	attrs := []string{"", "", ` class="menu"`, ` role="navigation"`, ` class="content"`, ` id="sidebar"`, ` class="menubar"`, ` role="banner"`}
+	tok := 0
+	t := func() string { tok++; return fmt.Sprintf("lw%04dq", tok) }
+	tbl := func() string {
+		if r.Chance(1, 4) {
+			// a sectioning element / form inside a table is foster-parented in front of it
+			w := hx.Pick(r, []string{"section", "form", "article"})
+			return "<table><" + w + hx.Pick(r, attrs) + ">" + t() + "<div>" + t() + "</div>" + t() + "</" + w + "><tr><td>" + t() + "</td></tr></table>"
+		}
+		return "<table><tr><td>" + t() + "</td></tr></table>"
+	}
+	var wrap func(depth int) string
+	wrap = func(depth int) string {
+		w := hx.Pick(r, wrappers)
+		var b strings.Builder
+		b.WriteString("<" + w + hx.Pick(r, attrs) + ">")
+		if r.Chance(3, 4) {
+			b.WriteString(t() + " ")
+		} else if r.Bool() {
+			b.WriteString(" \n")
+		}
+		if r.Chance(1, 3) {
+			b.WriteString("<i>" + t() + "</i>")
+		}
+		if depth < 3 && r.Chance(1, 3) {
+			b.WriteString(wrap(depth + 1))
+		} else {
+			b.WriteString(tbl())
+		}
+		if r.Bool() {
+			b.WriteString(t())
+		}
+		if r.Chance(1, 5) {
+			b.WriteString("<script>" + t() + "</script>")
+		}
+		b.WriteString("</" + w + ">")
+		return b.String()
+	}
+	for i := 0; i < n; i++ {
+		var b strings.Builder
+		if r.Chance(1, 6) {
+			b.WriteString("<!DOCTYPE html>") // no-quirks: the table closes the p, nothing can be lost
+			c.Count("lost-family-noquirks")
+		}
+		b.WriteString("<body>")
+		if r.Chance(1, 3) {
+			b.WriteString("<h2>" + t() + "</h2>")
+		}
+		open := "<p>"
+		if r.Chance(1, 5) {
+			open = "<div" + hx.Pick(r, attrs) + "><p>"
+		}
+		b.WriteString(open + t())
+		for j := r.Range(1, 3); j > 0; j-- {
+			switch r.Intn(3) {
+			case 0:
+				b.WriteString(tbl())
+			default:
+				b.WriteString(wrap(0))
+			}
+			if r.Bool() {
+				b.WriteString(" " + t())
+			}
+		}
+		b.WriteString("</p>")
+		if r.Bool() {
+			b.WriteString("<ul><li>" + t() + "<span>" + t() + "<ul><li>" + t() + "</li></ul></span></li></ul>")
+		}
+		data := []byte(b.String())
+		tree, ok := docTree(data)
+		if !ok {
+			continue
+		}
+		c.Count("lost-family")
+		for _, m := range []int{0, 1, 2, 3, hx.Pick(r, oddModes)} {
+			line, out, errText := lostOp(c, data, tree, m)
+			chk(c, "C19/lost-text-when-no-wrapper", errText == "", map[string]string{"stream": "html", "html": b.String()}, func() string { return errText })
+			if line != "" {
+				c.Op(line, out)
+			}
+		}
+	}
+}
+
 // dumpBlocks writes the element list with list elements opened into their items
 // (level and kind of list per item) and everything else whole.
 func dumpBlocks(els []htmldoc.VerifElement) string {
@@ -414,6 +610,20 @@ func apiOps(c *hx.Ctx, k *kase, data []byte) {
 				c.Count("want-wrapped-paragraph")
 			}
 			ops = append(ops, opPair{fmt.Sprintf("c19.want %d %s", m, tree), out})
+		}
+		// 5c. the lost text (finding C19/content-missing-para-in-wrapper, exactly): on EVERY
+		// document the model's returned text, its lost text and the two relations the
+		// theorems state (returned is a subsequence of wanted, lengths add up); the harness
+		// supplies the text the real elements carry and the lost text it collects itself
+		// from the html.Node tree with the reader's own exclusion decisions
+		{
+			line, out, err := lostOp(c, data, tree, r.Range(-1, 4))
+			if err != "" {
+				errs = append(errs, err)
+			}
+			if line != "" {
+				ops = append(ops, opPair{line, out})
+			}
 		}
 		// 6. the block-level specification (tables whole, the kind of list of every item)
 		{
